@@ -244,6 +244,7 @@ func handleExceptionSignal(vm *r.VM, blockModule *r.Module, frameDepth int, catc
 
 // EvalStatement - eval statement
 func evalStatement(vm *r.VM, stmt syntax.Statement) (r.Element, error) {
+	verifYield("statement")
 	// set current line
 	vm.SetCurrentLine(stmt.GetCurrentLine())
 
